@@ -6,6 +6,7 @@ import (
 	"encoding/json"
 	"fmt"
 	"os"
+	"runtime"
 	"sort"
 	"testing/synctest"
 	"time"
@@ -245,6 +246,11 @@ func (w *world) call(name string, max time.Duration, fn func() error) (bool, err
 
 // finish writes the result file and leaves the process (one run per process).
 func (w *world) finish() {
+	if os.Getenv("VERIF_DUMP") != "" {
+		buf := make([]byte, 8<<20)
+		n := runtime.Stack(buf, true)
+		os.Stderr.Write(buf[:n])
+	}
 	w.net.route()
 	for k, v := range w.net.stats {
 		w.res.Faults[k] += v
